@@ -40,7 +40,7 @@ use zcash_keys::keys::{UnifiedAddressRequest, UnifiedSpendingKey};
 use zcash_pool_migration::denomination::DenominationPlan;
 use zcash_pool_migration::engine::{
     MigrationLockOwner, MigrationState, MigrationStatus, MigrationTransaction, MigrationTransferId, MigrationTxKind,
-    MigrationTxState, PoolMigrationWrite,
+    MigrationTxState, PoolMigrationWrite, ProvedTransaction,
 };
 use zcash_pool_migration::preparation::PreparationPlan;
 use zcash_pool_migration::satisfiability::ReplanThreshold;
@@ -71,6 +71,7 @@ enum Ev {
     Commit,
     Rollback,
     TxnEnd,
+    StmtErr,
     RBegin,
     RRead,
     REnd,
@@ -86,6 +87,7 @@ impl Ev {
             Ev::Commit => "Commit".into(),
             Ev::Rollback => "Rollback".into(),
             Ev::TxnEnd => "TxnEnd".into(),
+            Ev::StmtErr => "StmtErr".into(),
             Ev::RBegin => "RBegin".into(),
             Ev::RRead => "RRead".into(),
             Ev::REnd => "REnd".into(),
@@ -122,6 +124,33 @@ struct ReaderPlan {
     first: Vec<u8>,
 }
 
+/// Number of statements that aborted with an error, as reported by SQLite's error log
+/// (`SQLITE_CONFIG_LOG`, "statement aborts at ..."), not counting the harness's own dump
+/// statements (`SELECT * FROM "t"`). The log is process-global; the only connections that run
+/// anything else than dump statements are the writer connections, one at a time.
+static STMT_ERRS: std::sync::atomic::AtomicU64 = std::sync::atomic::AtomicU64::new(0);
+
+extern "C" fn log_cb(_p: *mut std::os::raw::c_void, _code: std::os::raw::c_int, msg: *const std::os::raw::c_char) {
+    if msg.is_null() {
+        return;
+    }
+    let m = unsafe { std::ffi::CStr::from_ptr(msg) }.to_string_lossy();
+    if (m.starts_with("statement aborts") || m.starts_with("abort at")) && !m.contains("SELECT * FROM \"") && !m.contains("sqlite_master") {
+        if std::env::var("C02LOG").is_ok() {
+            eprintln!("SQLITE-LOG {m}");
+        }
+        STMT_ERRS.fetch_add(1, std::sync::atomic::Ordering::SeqCst);
+    }
+}
+
+fn install_log() {
+    unsafe {
+        let cb: extern "C" fn(*mut std::os::raw::c_void, std::os::raw::c_int, *const std::os::raw::c_char) = log_cb;
+        let rc = rusqlite::ffi::sqlite3_config(rusqlite::ffi::SQLITE_CONFIG_LOG, cb, std::ptr::null_mut::<std::os::raw::c_void>());
+        assert_eq!(rc, 0, "sqlite3_config(SQLITE_CONFIG_LOG) must be called before SQLite is initialised");
+    }
+}
+
 /// Tracer state shared with the SQLite hooks of the writer connection.
 struct TS {
     active: bool,
@@ -144,6 +173,7 @@ struct TS {
     commit_step: u64,
     crash_seq: u32,
     write_steps: Vec<u64>,
+    errs_seen: u64,
 }
 
 fn autocommit(handle: usize) -> bool {
@@ -182,7 +212,17 @@ fn stmt_running(handle: usize) -> bool {
 
 impl TS {
     /// Derive Begin / TxnEnd from the autocommit flag of the writer connection.
+    /// Statement aborts reported since the last look become StmtErr events.
+    fn flush_errs(&mut self) {
+        let n = STMT_ERRS.load(std::sync::atomic::Ordering::SeqCst);
+        while self.errs_seen < n {
+            self.errs_seen += 1;
+            self.ev.push(Ev::StmtErr);
+        }
+    }
+
     fn sample(&mut self) {
+        self.flush_errs();
         let ac = autocommit(self.handle);
         if !ac && !self.txn_open {
             self.txn_open = true;
@@ -311,6 +351,7 @@ fn install(conn: &Connection, ts: &Arc<Mutex<TS>>) {
         if !s.active {
             return false;
         }
+        s.flush_errs();
         s.commit_step = s.steps;
         s.crash_image();
         if s.veto_commit && !s.fired {
@@ -327,9 +368,7 @@ fn install(conn: &Connection, ts: &Arc<Mutex<TS>>) {
         if !s.active {
             return;
         }
-        if !s.txn_open {
-            // rollback of the implicit transaction of an autocommitted statement
-        }
+        s.flush_errs();
         s.txn_open = false;
         s.ev.push(Ev::Rollback);
     }));
@@ -530,6 +569,41 @@ fn migration_state(status: MigrationStatus, n: u32, owner: Option<[u8; 32]>) -> 
     )
 }
 
+/// A COMPLETE migration whose transfers were mined at the given heights.
+fn complete_migration(heights: &[u32]) -> MigrationState {
+    let txs = heights
+        .iter()
+        .enumerate()
+        .map(|(i, h)| {
+            let txid = TxId::from_bytes([0xA0 + i as u8; 32]);
+            MigrationTransaction::from_parts(
+                MigrationTransferId::new(i as u32),
+                MigrationTxKind::Transfer { crossing: i },
+                vec![0xCD, i as u8],
+                Vec::new(),
+                BlockHeight::from_u32(0),
+                BlockHeight::from_u32(0),
+                None,
+                txid,
+                MigrationTxState::Mined { txid, height: BlockHeight::from_u32(*h) },
+                None,
+                None,
+                vec![[i as u8 + 0x30; 32]],
+                None,
+            )
+        })
+        .collect();
+    MigrationState::from_parts(
+        MigrationStatus::Complete,
+        DenominationPlan::from_stored_parts(Vec::new(), Zatoshis::ZERO, None, Zatoshis::ZERO, Zatoshis::ZERO, Zatoshis::ZERO)
+            .expect("plan"),
+        PreparationPlan::from_parts(Vec::new(), Vec::new()),
+        txs,
+        AnchorBucketInterval::ZIP_318,
+        ReplanThreshold::DEFAULT,
+    )
+}
+
 const OWNER: [u8; 32] = [0x5a; 32];
 
 fn ops() -> Vec<OpDef> {
@@ -657,6 +731,159 @@ fn ops() -> Vec<OpDef> {
 }
 
 // ---------------------------------------------------------------------------------------------
+// a really proved pool-migration transaction (port of the set-up of
+// zcash_client_sqlite/tests/pool_migration_prove_chain_sim.rs): a wallet funded with one Orchard
+// note plans and commits a migration over the WalletMigration adapter; its first preparation
+// transaction is proved with the real Orchard prover. Gives the inputs of
+// `store_proved_transaction` and `take_transaction_for_broadcast`.
+// ---------------------------------------------------------------------------------------------
+mod proved {
+    use std::convert::Infallible;
+
+    use rand_chacha::ChaCha8Rng;
+    use rand_core::SeedableRng;
+    use zcash_client_backend::data_api::testing::{orchard::OrchardPoolTester, pool::ShieldedPoolTester, AddressType, TestBuilder, TestState};
+    use zcash_client_backend::data_api::{Account as _, WalletRead};
+    use zcash_client_sqlite::pool_migration::orchard_ironwood::PoolMigrations;
+    use zcash_client_sqlite::testing::db::{TestDb, TestDbFactory};
+    use zcash_client_sqlite::testing::{highest_rooted_orchard_checkpoint, BlockCache};
+    use zcash_client_sqlite::util::SystemClock;
+    use zcash_client_sqlite::AccountUuid;
+    use zcash_pool_migration::engine::{self, MigrationState, MigrationTransferId, MigrationTxKind, MigrationTxState, PoolMigrationRead, PoolMigrationWrite};
+    use zcash_pool_migration::satisfiability::{self, AdvanceConfig, DuenessTargets, ReorgSettleDepth, ReplanThreshold};
+    use zcash_pool_migration::state::AdvanceStep;
+    use zcash_pool_migration::wallet::{WalletMigration, WalletMigrationProver};
+    use zcash_primitives::block::BlockHash;
+    use zcash_protocol::consensus::BlockHeight;
+    use zcash_protocol::local_consensus::LocalNetwork;
+    use zcash_protocol::value::Zatoshis;
+    use zcash_protocol::TxId;
+
+    const ADVANCE: AdvanceConfig = AdvanceConfig::new(ReorgSettleDepth::new(10));
+
+    #[derive(Default)]
+    struct MemStore {
+        state: Option<MigrationState>,
+    }
+    impl PoolMigrationRead for MemStore {
+        type Error = Infallible;
+        fn get_migration(&self) -> Result<Option<MigrationState>, Self::Error> {
+            Ok(self.state.clone())
+        }
+        fn check_step_satisfiability(&self, _tx: &engine::MigrationTransaction, _settle: ReorgSettleDepth) -> Result<satisfiability::StepSatisfiability, Self::Error> {
+            Ok(satisfiability::StepSatisfiability::Satisfiable { as_of_height: BlockHeight::from_u32(0) })
+        }
+        fn mined_height(&self, _txid: TxId) -> Result<Option<BlockHeight>, Self::Error> {
+            Ok(None)
+        }
+    }
+    impl PoolMigrationWrite for MemStore {
+        fn replace_migration(&mut self, state: &MigrationState) -> Result<(), Self::Error> {
+            self.state = Some(state.clone());
+            Ok(())
+        }
+        fn update_transaction(&mut self, _id: MigrationTransferId, _state: MigrationTxState) -> Result<(), Self::Error> {
+            Ok(())
+        }
+        fn store_proved_transaction(&mut self, state: &mut MigrationState, proven: engine::ProvedTransaction) -> Result<(), Self::Error> {
+            proven.apply(state);
+            self.replace_migration(state)
+        }
+    }
+
+    pub struct Proved {
+        pub st: TestState<BlockCache, TestDb, LocalNetwork>,
+        pub net: LocalNetwork,
+        pub account: AccountUuid,
+        /// the committed migration as persisted before the proof is stored
+        pub state: MigrationState,
+        pub id: MigrationTransferId,
+        pub pczt: Vec<u8>,
+        pub proven: Option<engine::ProvedTransaction>,
+    }
+
+    pub fn build() -> Result<Proved, String> {
+        let h = BlockHeight::from_u32(100_000);
+        let net = LocalNetwork { nu6: Some(h), nu6_1: Some(h), nu6_2: Some(h), nu6_3: Some(h), ..TestBuilder::<(), ()>::DEFAULT_NETWORK };
+        let mut st = TestBuilder::new()
+            .with_network(net)
+            .with_data_store_factory(TestDbFactory::default())
+            .with_block_cache(BlockCache::new())
+            .with_account_from_sapling_activation(BlockHash([0; 32]))
+            .build();
+        let account = st.test_account().cloned().ok_or("no test account")?;
+        let account_id = account.id();
+        let usk = account.usk().clone();
+        let fvk = OrchardPoolTester::test_account_fvk(&st);
+        let (bh, _, _) = st.generate_next_block(&fvk, AddressType::DefaultExternal, Zatoshis::const_from_u64(1_520_000));
+        st.scan_cached_blocks(bh, 1);
+        for _ in 0..5 {
+            let (bh, _) = st.generate_empty_block();
+            st.scan_cached_blocks(bh, 1);
+        }
+        let tip = st.wallet().chain_height().map_err(|e| format!("{e:?}"))?.ok_or("no tip")?;
+        let mut rng = ChaCha8Rng::seed_from_u64(0);
+        let mut state = {
+            let adapter = WalletMigration::new(st.wallet(), account_id, usk.to_unified_full_viewing_key(), MemStore::default());
+            let plan = engine::plan_migration(&net, &adapter, &mut rng).map_err(|e| format!("plan: {e:?}"))?;
+            let mut adapter = adapter;
+            let (state, _) = engine::commit_preparation_with_funding(&net, tip, &mut adapter, usk.orchard(), &plan, &mut rng, ReplanThreshold::DEFAULT)
+                .map_err(|e| format!("commit: {e:?}"))?;
+            state
+        };
+        PoolMigrations::for_account(net, SystemClock, st.wallet_mut().conn_mut(), account_id)
+            .map_err(|e| format!("{e:?}"))?
+            .replace_migration(&state)
+            .map_err(|e| format!("persist: {e:?}"))?;
+        // drive until a preparation is named for proving
+        let mut waited = 0;
+        let (id, kind) = loop {
+            let target = st.wallet().chain_height().unwrap().unwrap() + 1;
+            let step = {
+                let mut store = PoolMigrations::for_account(net, SystemClock, st.wallet_mut().conn_mut(), account_id).map_err(|e| format!("{e:?}"))?;
+                let mut r = ChaCha8Rng::seed_from_u64(0x318);
+                satisfiability::advance_migration(&mut store, &mut state, DuenessTargets::at(target), &ADVANCE, &mut r)
+                    .map_err(|e| format!("advance: {e:?}"))?
+                    .step()
+                    .clone()
+            };
+            match step {
+                AdvanceStep::Prove { transactions } => break (transactions[0].id(), transactions[0].kind()),
+                AdvanceStep::Waiting => {
+                    waited += 1;
+                    if waited > 5000 {
+                        return Err("nothing came due".into());
+                    }
+                    let (bh, _) = st.generate_empty_block();
+                    st.scan_cached_blocks(bh, 1);
+                }
+                other => return Err(format!("unexpected step {other:?}")),
+            }
+        };
+        if !matches!(kind, MigrationTxKind::Preparation { .. }) {
+            return Err("first provable transaction is not a preparation".into());
+        }
+        // the store holds what advance_migration may have changed
+        PoolMigrations::for_account(net, SystemClock, st.wallet_mut().conn_mut(), account_id)
+            .map_err(|e| format!("{e:?}"))?
+            .replace_migration(&state)
+            .map_err(|e| format!("persist: {e:?}"))?;
+        let tipnow = st.wallet().chain_height().unwrap().unwrap();
+        let anchor = highest_rooted_orchard_checkpoint(st.wallet_mut(), tipnow).ok_or("no rooted checkpoint")?;
+        let mut proving_state = state.clone();
+        let outcome = {
+            let mut prover = WalletMigrationProver::new(st.wallet_mut(), account_id, fvk.clone());
+            engine::prove_preparation(&mut prover, &mut proving_state, id, anchor).map_err(|e| format!("prove: {e:?}"))?
+        };
+        let engine::ProveOutcome::Proved(proven) = outcome else {
+            return Err(format!("not proved: {outcome:?}"));
+        };
+        let pczt = proven.pczt().to_vec();
+        Ok(Proved { st, net, account: account_id, state: proving_state, id, pczt, proven: Some(proven) })
+    }
+}
+
+// ---------------------------------------------------------------------------------------------
 // runs
 // ---------------------------------------------------------------------------------------------
 
@@ -723,6 +950,7 @@ fn run_op(conn: &mut Connection, path: &Path, tables: &Arc<Vec<String>>, tcode: 
         commit_step: 0,
         crash_seq: 0,
         write_steps: vec![],
+        errs_seen: STMT_ERRS.load(std::sync::atomic::Ordering::SeqCst),
     }));
     install(conn, &ts);
     {
@@ -810,6 +1038,187 @@ fn emit(op: &OpDef, kind: u64, k: u64, mode: Mode, r: &RunOut, refw: &[Ev], pre:
     ));
 }
 
+struct Env {
+    rng: vcommon::Rng,
+    stats: Stats,
+    n_fault: usize,
+    n_live: usize,
+    n_reader: usize,
+    thorough: bool,
+    debug: bool,
+    work: PathBuf,
+}
+
+/// Everything that is done with one operation on one database state (file `pre`).
+#[allow(clippy::too_many_arguments)]
+fn drive(env: &mut Env, pre: &Path, tables: &Arc<Vec<String>>, tcode: &HashMap<String, u64>, pre_d: u64, op: &OpDef, opi: u64, ctx: &Ctx, variant: u64, state: u64) {
+    let work_buf = env.work.clone();
+    let work: &Path = &work_buf;
+    // ---- reference run (no fault), delete-journal mode
+    fresh_copy(pre, work, Mode::Delete);
+    let mut c = open_db(work, Mode::Delete);
+    let rs = 1000 + variant;
+    let refr = run_op(&mut c, work, tables, tcode, op, opi, ctx, rs, &Plan { crash_copies: true, ..Default::default() }, Mode::Delete);
+    drop(c);
+    let post_d = full_digest(&Connection::open(work).unwrap(), tables);
+    if env.debug {
+        eprintln!("[{variant}/{state}] {:<14} ok={} steps={} commit_step={} writes={} pre==post:{} err={} trace={}", op.label, refr.ok, refr.steps, refr.commit_step, writes_of(&refr.ev).len(), pre_d == post_d, &refr.err[..refr.err.len().min(100)], &coq_trace(&refr.ev)[..coq_trace(&refr.ev).len().min(300)]);
+    }
+    let refw = writes_of(&refr.ev);
+    if !refr.ok {
+        // the operation is refused in this state (e.g. no such row): an error-path case
+        env.stats.skipped.push(format!("{}@{state}:{}", op.label, &refr.err[..refr.err.len().min(80)]));
+        emit(op, 6, 0, Mode::Delete, &refr, &refw, pre_d, pre_d, post_d, None);
+        env.stats.runs += 1;
+        *env.stats.by_kind.entry("refused").or_insert(0) += 1;
+        // faults inside a refused call must leave the database untouched as well
+        let n = refr.steps.max(1);
+        let mut ks: Vec<u64> = (0..env.n_fault).map(|_| env.rng.range(1, n)).collect();
+        ks.sort();
+        ks.dedup();
+        for (i, k) in ks.iter().enumerate() {
+            let mode = if i % 2 == 0 { Mode::Delete } else { Mode::Wal };
+            fresh_copy(pre, work, mode);
+            let mut c = open_db(work, mode);
+            let fr = run_op(&mut c, work, tables, tcode, op, opi, ctx, rs, &Plan { abort_at: *k, crash_copies: true, ..Default::default() }, mode);
+            drop(c);
+            let second = full_digest(&Connection::open(work).unwrap(), tables);
+            emit(op, 7, if fr.fired { *k } else { 0 }, mode, &fr, &refw, pre_d, pre_d, second, None);
+            env.stats.runs += 1;
+            *env.stats.by_kind.entry("refused_fault").or_insert(0) += 1;
+            if fr.fired && fr.ok {
+                env.stats.swallowed.push(format!("{}@{k}", op.label));
+            }
+        }
+        return;
+    }
+    let n = refr.steps.max(1);
+    let e0 = env.stats.ops.entry(op.label).or_insert((0, 0));
+    e0.0 = e0.0.max(n);
+    e0.1 = e0.1.max(refw.len() as u64);
+    emit(op, 0, 0, Mode::Delete, &refr, &refw, pre_d, post_d, post_d, None);
+    env.stats.runs += 1;
+    *env.stats.by_kind.entry("ref").or_insert(0) += 1;
+    // determinism of the reference run itself (other RNG seed, uuid columns blanked)
+    {
+        fresh_copy(pre, work, Mode::Wal);
+        let mut c = open_db(work, Mode::Wal);
+        let r2 = run_op(&mut c, work, tables, tcode, op, opi, ctx, rs + 500, &Plan { crash_copies: true, ..Default::default() }, Mode::Wal);
+        drop(c);
+        let d2 = full_digest(&Connection::open(work).unwrap(), tables);
+        emit(op, 0, 0, Mode::Wal, &r2, &refw, pre_d, post_d, d2, None);
+        env.stats.runs += 1;
+        *env.stats.by_kind.entry("ref").or_insert(0) += 1;
+    }
+
+    // ---- fault positions
+    let mut ks: Vec<u64> = vec![1, 2, 3, n / 4, n / 2, (3 * n) / 4, n.saturating_sub(2), n.saturating_sub(1), n];
+    if refr.commit_step > 0 {
+        ks.extend_from_slice(&[refr.commit_step.saturating_sub(1), refr.commit_step, refr.commit_step + 1]);
+    }
+    // statement boundaries: the step of (a sample of) the row changes and the step before
+    {
+        let mut ws = refr.write_steps.clone();
+        ws.dedup();
+        let stride = if state >= 2 || env.thorough { 1 } else { (ws.len() / 8).max(1) };
+        for w in ws.iter().step_by(stride) {
+            ks.push(*w);
+            ks.push(w.saturating_sub(1));
+            ks.push(*w + 1);
+        }
+    }
+    while ks.len() < env.n_fault + 9 {
+        ks.push(env.rng.range(1, n));
+    }
+    // a fault is injected inside the operation, i.e. before its commit point
+    let kmax = if refr.commit_step > 0 { refr.commit_step } else { n };
+    ks.retain(|k| *k >= 1 && *k <= kmax);
+    ks.sort();
+    ks.dedup();
+    for (i, k) in ks.iter().enumerate() {
+        let mode = match i % 3 {
+            0 => Mode::Delete,
+            1 => Mode::Wal,
+            _ => Mode::Spill,
+        };
+        fresh_copy(pre, work, mode);
+        let mut c = open_db(work, mode);
+        let fr = run_op(&mut c, work, tables, tcode, op, opi, ctx, rs, &Plan { abort_at: *k, crash_copies: true, ..Default::default() }, mode);
+        let second = full_digest(&open_db(work, Mode::Delete), tables);
+        // retry on the same connection, other RNG seed
+        let rr = run_op(&mut c, work, tables, tcode, op, opi, ctx, rs + 9000, &Plan::default(), mode);
+        drop(c);
+        let rd = full_digest(&Connection::open(work).unwrap(), tables);
+        emit(op, 1, if fr.fired { *k } else { 0 }, mode, &fr, &refw, pre_d, post_d, second, Some((&rr, rd)));
+        env.stats.runs += 1;
+        *env.stats.by_kind.entry("fault").or_insert(0) += 1;
+        if fr.fired && fr.ok {
+            env.stats.swallowed.push(format!("{}@{k}", op.label));
+        }
+        if env.debug && (fr.same != pre_d || rd != post_d) {
+            eprintln!("   k={k} mode={mode:?} ok={} same==pre:{} same==post:{} retry_ok={} retry==post:{} err={} RETRYERR={} TR={}", fr.ok, fr.same == pre_d, fr.same == post_d, rr.ok, rd == post_d, &fr.err[..fr.err.len().min(100)], &rr.err[..rr.err.len().min(200)], coq_trace(&fr.ev));
+        }
+    }
+    // ---- commit vetoed
+    for mode in [Mode::Delete, Mode::Wal] {
+        fresh_copy(pre, work, mode);
+        let mut c = open_db(work, mode);
+        let fr = run_op(&mut c, work, tables, tcode, op, opi, ctx, rs, &Plan { veto_commit: true, crash_copies: true, ..Default::default() }, mode);
+        let second = full_digest(&open_db(work, Mode::Delete), tables);
+        let rr = run_op(&mut c, work, tables, tcode, op, opi, ctx, rs + 9000, &Plan::default(), mode);
+        drop(c);
+        let rd = full_digest(&Connection::open(work).unwrap(), tables);
+        emit(op, 2, if fr.fired { 1 } else { 0 }, mode, &fr, &refw, pre_d, post_d, second, Some((&rr, rd)));
+        env.stats.runs += 1;
+        *env.stats.by_kind.entry("veto").or_insert(0) += 1;
+    }
+    // ---- live snapshots through a second connection while the call runs
+    for i in 0..env.n_live {
+        let mode = if i % 2 == 0 { Mode::Delete } else { Mode::Wal };
+        let mut ls: Vec<u64> = (0..4).map(|_| env.rng.range(1, n)).collect();
+        if refr.commit_step > 0 {
+            ls.push(refr.commit_step);
+            ls.push((refr.commit_step + 1).min(n));
+        }
+        fresh_copy(pre, work, mode);
+        let mut c = open_db(work, mode);
+        let lr = run_op(&mut c, work, tables, tcode, op, opi, ctx, rs, &Plan { live_steps: ls, ..Default::default() }, mode);
+        drop(c);
+        let second = full_digest(&Connection::open(work).unwrap(), tables);
+        env.stats.busy += lr.obs.iter().filter(|o| o.2 == 0).count() as u64;
+        emit(op, 3, 0, mode, &lr, &refw, pre_d, post_d, second, None);
+        env.stats.runs += 1;
+        *env.stats.by_kind.entry("live").or_insert(0) += 1;
+    }
+    // ---- a two-statement read on a second connection, writer interleaved
+    for i in 0..env.n_reader {
+        let kind = if i % 4 == 3 { ReaderKind::Unbracketed } else { ReaderKind::Bracketed };
+        let mode = if i % 2 == 0 { Mode::Wal } else { Mode::Delete };
+        let cs = if refr.commit_step > 0 { refr.commit_step } else { n };
+        // rollback-journal mode: a read transaction held across the writer's commit makes
+        // the commit fail with SQLITE_BUSY (an error return, covered by the fault runs);
+        // here the bracket closes before the commit. WAL: any position, also after the call.
+        let (j1, j2) = if mode == Mode::Delete && kind == ReaderKind::Bracketed {
+            let j1 = env.rng.range(1, cs.saturating_sub(2).max(1));
+            (j1, env.rng.range(j1, cs.saturating_sub(1).max(j1)))
+        } else {
+            let j1 = env.rng.range(1, cs);
+            (j1, if env.rng.bool() { n + 10 } else { env.rng.range(j1, n) })
+        };
+        fresh_copy(pre, work, mode);
+        let mut c = open_db(work, mode);
+        let lr = run_op(&mut c, work, tables, tcode, op, opi, ctx, rs, &Plan { reader: Some((kind, j1, j2)), ..Default::default() }, mode);
+        drop(c);
+        let second = full_digest(&Connection::open(work).unwrap(), tables);
+        if lr.obs.iter().any(|o| o.1 == 5 && o.2 != pre_d && o.2 != post_d) {
+            env.stats.torn += 1;
+        }
+        emit(op, if kind == ReaderKind::Bracketed { 4 } else { 5 }, j1, mode, &lr, &refw, pre_d, post_d, second, None);
+        env.stats.runs += 1;
+        *env.stats.by_kind.entry("reader").or_insert(0) += 1;
+    }
+}
+
 fn build_ctx(seed: u64, variant: u64) -> Ctx {
     let mut w = World::new(hist::rng_from(seed, 100 + variant), 2);
     let mut r = vcommon::Rng::new(seed, 200 + variant);
@@ -883,42 +1292,58 @@ fn build_ctx(seed: u64, variant: u64) -> Ctx {
 }
 
 fn main() {
+    install_log();
     let a = vcommon::args();
     vcommon::quiet_panics();
     let debug = a.rest.iter().any(|x| x == "--debug");
+    let no_prove = a.rest.iter().any(|x| x == "--no-prove");
     let only: Option<String> = a.rest.iter().position(|x| x == "--op").map(|i| a.rest[i + 1].clone());
     let dir = if Path::new("/dev/shm").is_dir() { tempfile::tempdir_in("/dev/shm") } else { tempfile::tempdir() }.expect("tempdir");
-    let mut rng = vcommon::Rng::new(a.seed, 1);
     let n_fault = a.budget(8, 120);
     let n_live = a.budget(3, 12);
     let n_reader = a.budget(4, 16);
     let variants = a.budget(1, 3) as u64;
-    let mut stats = Stats { runs: 0, by_kind: HashMap::new(), ops: HashMap::new(), busy: 0, skipped: vec![], torn: 0, swallowed: vec![] };
+    let stats = Stats { runs: 0, by_kind: HashMap::new(), ops: HashMap::new(), busy: 0, skipped: vec![], torn: 0, swallowed: vec![] };
     let opdefs = ops();
+    let mut env = Env { rng: vcommon::Rng::new(a.seed, 1), stats, n_fault, n_live, n_reader, thorough: a.thorough(), debug, work: dir.path().join("work.db") };
 
     for variant in 0..variants {
         let ctx = build_ctx(a.seed, variant);
         // two states: S0 = history only; S1 = S0 + locks, stored transactions, a pending migration
-        for state in 0..2u64 {
+        // states: S0 = history only; S1 = S0 + locks, stored transactions, a pending migration;
+        // S2 = S0 + a COMPLETE pool migration of account 0 with transfers mined above the heights
+        // the truncations go to (the roll-back walk of pool_migration::store::truncate_to_height
+        // rewrites it); S3 = S2 + a successor migration of the same account (demoting the completed
+        // one then violates the one-pending-migration-per-account index: the truncation is refused)
+        for state in 0..4u64 {
             let pre = dir.path().join(format!("pre_{variant}_{state}.db"));
             remove_db(&pre);
             if state == 0 {
                 ctx.world.wallet.db.conn().execute(&format!("VACUUM INTO '{}'", pre.to_string_lossy()), []).expect("vacuum into");
-            } else {
+            } else if state == 1 {
                 let s0 = dir.path().join(format!("pre_{variant}_0.db"));
                 std::fs::copy(&s0, &pre).unwrap();
                 let mut c = open_db(&pre, Mode::Delete);
                 for l in ["lock", "store_sent", "decrypt_store", "mig_replace", "utxo", "sroots"] {
                     let op = opdefs.iter().find(|o| o.label == l).unwrap();
                     if let Err(er) = (op.run)(&mut c, &ctx, 77) {
-                        stats.skipped.push(format!("setup:{l}:{}", &er[..er.len().min(120)]));
+                        env.stats.skipped.push(format!("setup:{l}:{}", &er[..er.len().min(120)]));
                     }
+                }
+            } else {
+                let s0 = dir.path().join(format!("pre_{variant}_0.db"));
+                std::fs::copy(&s0, &pre).unwrap();
+                let mut c = open_db(&pre, Mode::Delete);
+                let tip = ctx.world.tip_height();
+                let mut pm = PoolMigrations::for_account(ctx.world.net, clock(), &mut c, ctx.world.accts[0].id).expect("store");
+                pm.replace_migration(&complete_migration(&[BASE + 1, BASE + 3, tip - 2, tip - 2])).expect("complete migration");
+                if state == 3 {
+                    pm.replace_migration(&migration_state(MigrationStatus::InProgress, 2, None)).expect("successor migration");
                 }
             }
             let tables: Arc<Vec<String>> = Arc::new(list_tables(&Connection::open(&pre).unwrap()));
             let tcode: HashMap<String, u64> = tables.iter().enumerate().map(|(i, t)| (t.clone(), i as u64)).collect();
             let pre_d = full_digest(&Connection::open(&pre).unwrap(), &tables);
-            let work = dir.path().join("work.db");
 
             for (opi, op) in opdefs.iter().enumerate() {
                 if let Some(o) = &only {
@@ -926,191 +1351,135 @@ fn main() {
                         continue;
                     }
                 }
-                let opi = opi as u64;
-                // ---- reference run (no fault), delete-journal mode
-                fresh_copy(&pre, &work, Mode::Delete);
-                let mut c = open_db(&work, Mode::Delete);
-                let rs = 1000 + variant;
-                let refr = run_op(&mut c, &work, &tables, &tcode, op, opi, &ctx, rs, &Plan { crash_copies: true, ..Default::default() }, Mode::Delete);
-                drop(c);
-                let post_d = full_digest(&Connection::open(&work).unwrap(), &tables);
-                if debug {
-                    eprintln!("[{variant}/{state}] {:<14} ok={} steps={} commit_step={} writes={} pre==post:{} err={} trace={}", op.label, refr.ok, refr.steps, refr.commit_step, writes_of(&refr.ev).len(), pre_d == post_d, &refr.err[..refr.err.len().min(100)], &coq_trace(&refr.ev)[..coq_trace(&refr.ev).len().min(300)]);
-                }
-                let refw = writes_of(&refr.ev);
-                if !refr.ok {
-                    // the operation is refused in this state (e.g. no such row): an error-path case
-                    stats.skipped.push(format!("{}@{state}:{}", op.label, &refr.err[..refr.err.len().min(80)]));
-                    emit(op, 6, 0, Mode::Delete, &refr, &refw, pre_d, pre_d, post_d, None);
-                    stats.runs += 1;
-                    *stats.by_kind.entry("refused").or_insert(0) += 1;
-                    // faults inside a refused call must leave the database untouched as well
-                    let n = refr.steps.max(1);
-                    let mut ks: Vec<u64> = (0..n_fault).map(|_| rng.range(1, n)).collect();
-                    ks.sort();
-                    ks.dedup();
-                    for (i, k) in ks.iter().enumerate() {
-                        let mode = if i % 2 == 0 { Mode::Delete } else { Mode::Wal };
-                        fresh_copy(&pre, &work, mode);
-                        let mut c = open_db(&work, mode);
-                        let fr = run_op(&mut c, &work, &tables, &tcode, op, opi, &ctx, rs, &Plan { abort_at: *k, crash_copies: true, ..Default::default() }, mode);
-                        drop(c);
-                        let second = full_digest(&Connection::open(&work).unwrap(), &tables);
-                        emit(op, 7, if fr.fired { *k } else { 0 }, mode, &fr, &refw, pre_d, pre_d, second, None);
-                        stats.runs += 1;
-                        *stats.by_kind.entry("refused_fault").or_insert(0) += 1;
-                        if fr.fired && fr.ok {
-                            stats.swallowed.push(format!("{}@{k}", op.label));
-                        }
-                    }
+                if state >= 2 && !["trunc", "trunc_cs", "rewind", "delete", "mig_replace", "mig_cancel", "mig_update", "tip+7"].contains(&op.label) {
                     continue;
                 }
-                let n = refr.steps.max(1);
-                let e0 = stats.ops.entry(op.label).or_insert((0, 0));
-                e0.0 = e0.0.max(n);
-                e0.1 = e0.1.max(refw.len() as u64);
-                emit(op, 0, 0, Mode::Delete, &refr, &refw, pre_d, post_d, post_d, None);
-                stats.runs += 1;
-                *stats.by_kind.entry("ref").or_insert(0) += 1;
-                // determinism of the reference run itself (other RNG seed, uuid columns blanked)
-                {
-                    fresh_copy(&pre, &work, Mode::Wal);
-                    let mut c = open_db(&work, Mode::Wal);
-                    let r2 = run_op(&mut c, &work, &tables, &tcode, op, opi, &ctx, rs + 500, &Plan { crash_copies: true, ..Default::default() }, Mode::Wal);
-                    drop(c);
-                    let d2 = full_digest(&Connection::open(&work).unwrap(), &tables);
-                    emit(op, 0, 0, Mode::Wal, &r2, &refw, pre_d, post_d, d2, None);
-                    stats.runs += 1;
-                    *stats.by_kind.entry("ref").or_insert(0) += 1;
-                }
-
-                // ---- fault positions
-                let mut ks: Vec<u64> = vec![1, 2, 3, n / 4, n / 2, (3 * n) / 4, n.saturating_sub(2), n.saturating_sub(1), n];
-                if refr.commit_step > 0 {
-                    ks.extend_from_slice(&[refr.commit_step.saturating_sub(1), refr.commit_step, refr.commit_step + 1]);
-                }
-                // statement boundaries: the step of (a sample of) the row changes and the step before
-                {
-                    let mut ws = refr.write_steps.clone();
-                    ws.dedup();
-                    let stride = (ws.len() / a.budget(8, 60)).max(1);
-                    for w in ws.iter().step_by(stride) {
-                        ks.push(*w);
-                        ks.push(w.saturating_sub(1));
-                        ks.push(*w + 1);
+                drive(&mut env, &pre, &tables, &tcode, pre_d, op, opi as u64, &ctx, variant, state);
+            }
+        }
+        // ---- states around a really proved migration transaction (one proof per harness run)
+        if variant == 0 && !no_prove && only.as_ref().map_or(true, |o| o.starts_with("pv_")) {
+            let t0 = std::time::Instant::now();
+            match proved::build() {
+                Err(er) => env.stats.skipped.push(format!("proved-setup:{}", &er[..er.len().min(200)])),
+                Ok(mut pv) => {
+                    let setup_s = t0.elapsed().as_secs();
+                    let net = pv.net;
+                    let account = pv.account;
+                    let id = pv.id;
+                    let state_a = pv.state.clone();
+                    let pczt = pv.pczt.clone();
+                    // A: the committed migration, the proof not yet stored
+                    let pa = dir.path().join("pre_pv_a.db");
+                    remove_db(&pa);
+                    pv.st.wallet().conn().execute(&format!("VACUUM INTO '{}'", pa.to_string_lossy()), []).expect("vacuum into");
+                    // B: the proof stored through the real store
+                    let mut state_b = state_a.clone();
+                    PoolMigrations::for_account(net, clock(), pv.st.wallet_mut().conn_mut(), account)
+                        .expect("store")
+                        .store_proved_transaction(&mut state_b, pv.proven.take().unwrap())
+                        .expect("store_proved_transaction");
+                    let pb = dir.path().join("pre_pv_b.db");
+                    remove_db(&pb);
+                    pv.st.wallet().conn().execute(&format!("VACUUM INTO '{}'", pb.to_string_lossy()), []).expect("vacuum into");
+                    // C: the transaction taken for broadcast once
+                    let pc = dir.path().join("pre_pv_c.db");
+                    std::fs::copy(&pb, &pc).unwrap();
+                    {
+                        let mut c = open_db(&pc, Mode::Delete);
+                        let r = PoolMigrations::for_account(net, clock(), &mut c, account).expect("store").take_transaction_for_broadcast(&state_b, id);
+                        if let Err(er) = r {
+                            env.stats.skipped.push(format!("proved-setup-take:{er:?}"));
+                        }
                     }
-                }
-                while ks.len() < n_fault + 9 {
-                    ks.push(rng.range(1, n));
-                }
-                // a fault is injected inside the operation, i.e. before its commit point
-                let kmax = if refr.commit_step > 0 { refr.commit_step } else { n };
-                ks.retain(|k| *k >= 1 && *k <= kmax);
-                ks.sort();
-                ks.dedup();
-                for (i, k) in ks.iter().enumerate() {
-                    let mode = match i % 3 {
-                        0 => Mode::Delete,
-                        1 => Mode::Wal,
-                        _ => Mode::Spill,
-                    };
-                    fresh_copy(&pre, &work, mode);
-                    let mut c = open_db(&work, mode);
-                    let fr = run_op(&mut c, &work, &tables, &tcode, op, opi, &ctx, rs, &Plan { abort_at: *k, crash_copies: true, ..Default::default() }, mode);
-                    let second = full_digest(&open_db(&work, Mode::Delete), &tables);
-                    // retry on the same connection, other RNG seed
-                    let rr = run_op(&mut c, &work, &tables, &tcode, op, opi, &ctx, rs + 9000, &Plan::default(), mode);
-                    drop(c);
-                    let rd = full_digest(&Connection::open(&work).unwrap(), &tables);
-                    emit(op, 1, if fr.fired { *k } else { 0 }, mode, &fr, &refw, pre_d, post_d, second, Some((&rr, rd)));
-                    stats.runs += 1;
-                    *stats.by_kind.entry("fault").or_insert(0) += 1;
-                    if fr.fired && fr.ok {
-                        stats.swallowed.push(format!("{}@{k}", op.label));
+                    let sa = state_a.clone();
+                    let sb = state_b.clone();
+                    let sb2 = state_b.clone();
+                    let pv_ops: Vec<(OpDef, Vec<&PathBuf>)> = vec![
+                        (
+                            OpDef {
+                                method: "PoolMigrations::store_proved_transaction",
+                                label: "pv_store",
+                                run: Box::new(move |c, _x, _rs| {
+                                    let mut pm = PoolMigrations::for_account(net, clock(), c, account).map_err(|e| format!("{e:?}"))?;
+                                    let mut st = sa.clone();
+                                    e(pm.store_proved_transaction(&mut st, ProvedTransaction::from_parts(id, pczt.clone())))
+                                }),
+                            },
+                            vec![&pa],
+                        ),
+                        (
+                            OpDef {
+                                method: "PoolMigrations::take_transaction_for_broadcast",
+                                label: "pv_take",
+                                run: Box::new(move |c, _x, _rs| {
+                                    let mut pm = PoolMigrations::for_account(net, clock(), c, account).map_err(|e| format!("{e:?}"))?;
+                                    e(pm.take_transaction_for_broadcast(&sb, id))
+                                }),
+                            },
+                            vec![&pb, &pc],
+                        ),
+                        (
+                            OpDef {
+                                method: "PoolMigrations::cancel_migration",
+                                label: "pv_cancel",
+                                run: Box::new(move |c, _x, _rs| {
+                                    let mut pm = PoolMigrations::for_account(net, clock(), c, account).map_err(|e| format!("{e:?}"))?;
+                                    e(pm.cancel_migration())
+                                }),
+                            },
+                            vec![&pa, &pb, &pc],
+                        ),
+                        (
+                            OpDef {
+                                method: "PoolMigrations::replace_migration",
+                                label: "pv_replace",
+                                run: Box::new(move |c, _x, _rs| {
+                                    let mut pm = PoolMigrations::for_account(net, clock(), c, account).map_err(|e| format!("{e:?}"))?;
+                                    let mut st = sb2.clone();
+                                    st.mark_broadcast(id);
+                                    e(pm.replace_migration(&st))
+                                }),
+                            },
+                            vec![&pc],
+                        ),
+                    ];
+                    for (k, (op, pres)) in pv_ops.iter().enumerate() {
+                        if let Some(o) = &only {
+                            if o != op.label && o != "pv_" {
+                                continue;
+                            }
+                        }
+                        for (si, pre) in pres.iter().enumerate() {
+                            let tables: Arc<Vec<String>> = Arc::new(list_tables(&Connection::open(pre).unwrap()));
+                            let tcode: HashMap<String, u64> = tables.iter().enumerate().map(|(i, t)| (t.clone(), i as u64)).collect();
+                            let pre_d = full_digest(&Connection::open(pre).unwrap(), &tables);
+                            drive(&mut env, pre, &tables, &tcode, pre_d, op, 100 + k as u64, &ctx, variant, 10 + si as u64);
+                        }
                     }
-                    if debug && (fr.same != pre_d || rd != post_d) {
-                        eprintln!("   k={k} mode={mode:?} ok={} same==pre:{} same==post:{} retry_ok={} retry==post:{} err={} RETRYERR={} TR={}", fr.ok, fr.same == pre_d, fr.same == post_d, rr.ok, rd == post_d, &fr.err[..fr.err.len().min(100)], &rr.err[..rr.err.len().min(200)], coq_trace(&fr.ev));
-                    }
-                }
-                // ---- commit vetoed
-                for mode in [Mode::Delete, Mode::Wal] {
-                    fresh_copy(&pre, &work, mode);
-                    let mut c = open_db(&work, mode);
-                    let fr = run_op(&mut c, &work, &tables, &tcode, op, opi, &ctx, rs, &Plan { veto_commit: true, crash_copies: true, ..Default::default() }, mode);
-                    let second = full_digest(&open_db(&work, Mode::Delete), &tables);
-                    let rr = run_op(&mut c, &work, &tables, &tcode, op, opi, &ctx, rs + 9000, &Plan::default(), mode);
-                    drop(c);
-                    let rd = full_digest(&Connection::open(&work).unwrap(), &tables);
-                    emit(op, 2, if fr.fired { 1 } else { 0 }, mode, &fr, &refw, pre_d, post_d, second, Some((&rr, rd)));
-                    stats.runs += 1;
-                    *stats.by_kind.entry("veto").or_insert(0) += 1;
-                }
-                // ---- live snapshots through a second connection while the call runs
-                for i in 0..n_live {
-                    let mode = if i % 2 == 0 { Mode::Delete } else { Mode::Wal };
-                    let mut ls: Vec<u64> = (0..4).map(|_| rng.range(1, n)).collect();
-                    if refr.commit_step > 0 {
-                        ls.push(refr.commit_step);
-                        ls.push((refr.commit_step + 1).min(n));
-                    }
-                    fresh_copy(&pre, &work, mode);
-                    let mut c = open_db(&work, mode);
-                    let lr = run_op(&mut c, &work, &tables, &tcode, op, opi, &ctx, rs, &Plan { live_steps: ls, ..Default::default() }, mode);
-                    drop(c);
-                    let second = full_digest(&Connection::open(&work).unwrap(), &tables);
-                    stats.busy += lr.obs.iter().filter(|o| o.2 == 0).count() as u64;
-                    emit(op, 3, 0, mode, &lr, &refw, pre_d, post_d, second, None);
-                    stats.runs += 1;
-                    *stats.by_kind.entry("live").or_insert(0) += 1;
-                }
-                // ---- a two-statement read on a second connection, writer interleaved
-                for i in 0..n_reader {
-                    let kind = if i % 4 == 3 { ReaderKind::Unbracketed } else { ReaderKind::Bracketed };
-                    let mode = if i % 2 == 0 { Mode::Wal } else { Mode::Delete };
-                    let cs = if refr.commit_step > 0 { refr.commit_step } else { n };
-                    // rollback-journal mode: a read transaction held across the writer's commit makes
-                    // the commit fail with SQLITE_BUSY (an error return, covered by the fault runs);
-                    // here the bracket closes before the commit. WAL: any position, also after the call.
-                    let (j1, j2) = if mode == Mode::Delete && kind == ReaderKind::Bracketed {
-                        let j1 = rng.range(1, cs.saturating_sub(2).max(1));
-                        (j1, rng.range(j1, cs.saturating_sub(1).max(j1)))
-                    } else {
-                        let j1 = rng.range(1, cs);
-                        (j1, if rng.bool() { n + 10 } else { rng.range(j1, n) })
-                    };
-                    fresh_copy(&pre, &work, mode);
-                    let mut c = open_db(&work, mode);
-                    let lr = run_op(&mut c, &work, &tables, &tcode, op, opi, &ctx, rs, &Plan { reader: Some((kind, j1, j2)), ..Default::default() }, mode);
-                    drop(c);
-                    let second = full_digest(&Connection::open(&work).unwrap(), &tables);
-                    if lr.obs.iter().any(|o| o.1 == 5 && o.2 != pre_d && o.2 != post_d) {
-                        stats.torn += 1;
-                    }
-                    emit(op, if kind == ReaderKind::Bracketed { 4 } else { 5 }, j1, mode, &lr, &refw, pre_d, post_d, second, None);
-                    stats.runs += 1;
-                    *stats.by_kind.entry("reader").or_insert(0) += 1;
+                    env.stats.skipped.push(format!("proved-setup-seconds:{setup_s}"));
                 }
             }
         }
     }
     let opsj: Vec<String> = {
-        let mut v: Vec<_> = stats.ops.iter().collect();
+        let mut v: Vec<_> = env.stats.ops.iter().collect();
         v.sort();
         v.iter().map(|(k, (s, w))| format!("\"{k}\":[{s},{w}]")).collect()
     };
     let kj: Vec<String> = {
-        let mut v: Vec<_> = stats.by_kind.iter().collect();
+        let mut v: Vec<_> = env.stats.by_kind.iter().collect();
         v.sort();
         v.iter().map(|(k, n)| format!("\"{k}\":{n}")).collect()
     };
     vcommon::stat(format!(
         "{{\"runs\":{},\"kinds\":{{{}}},\"ops_steps_writes\":{{{}}},\"second_conn_busy\":{},\"unbracketed_torn_reads\":{},\"not_applicable\":{:?},\"fault_fired_but_ok\":{:?}}}",
-        stats.runs,
+        env.stats.runs,
         kj.join(","),
         opsj.join(","),
-        stats.busy,
-        stats.torn,
-        stats.skipped,
-        stats.swallowed
+        env.stats.busy,
+        env.stats.torn,
+        env.stats.skipped,
+        env.stats.swallowed
     ));
 }
